@@ -94,6 +94,8 @@ class Nextline:
         if self._closed:
             return
         self._closed = True
+        # The plugins need to be initialized for the transition to "closed".
+        await self.start()
         await self._imp.aclose()
         await self._continuous.close()
 
